@@ -518,6 +518,11 @@ class Interp:
                 st.yields.append(YieldRec(Opq("yield-from", [v]), st.facts.copy(), list(st.loops), node, frame.func))
             return
         v = self.ev(node.value, st, frame) if node.value is not None else K(None)
+        if isinstance(v, Alt):
+            # the yielded value was computed by a helper with several outcomes: one record per outcome, under its facts
+            for x, f in v.alts:
+                st.yields.append(YieldRec(x, f.copy() if hasattr(f, "copy") else st.facts.copy(), list(st.loops), node, frame.func))
+            return
         st.yields.append(YieldRec(v, st.facts.copy(), list(st.loops), node, frame.func))
 
     def _for(self, node, st, frame):
@@ -1106,6 +1111,13 @@ class Interp:
                     return Rng(Lin.c(0), lins[0])
                 return Rng(*lins)
             return Opq("range", args)
+        if ext in ("builtins.abs", "numpy.abs", "numpy.absolute") and len(args) == 1 and lins[0] is not None and not kwargs:
+            # |x| = x where the facts on the trace give x >= 0, -x where they give x <= 0
+            if st.facts.entails(lins[0].scale(-1)) is not None:
+                return lins[0]
+            if st.facts.entails(lins[0]) is not None:
+                return lins[0].scale(-1)
+            return Opq("abs", args)
         if ext == "builtins.len" and len(args) == 1:
             a = args[0]
             if isinstance(a, Arr):
